@@ -1082,6 +1082,7 @@ def hist_key(c):
 
 
 _variant_counter = [0]
+_huge_counter = [0]
 
 
 def variants(rng, base, ids_every, scaled_every):
@@ -1096,7 +1097,14 @@ def variants(rng, base, ids_every, scaled_every):
     out.append(c)
     if scaled_every and j % scaled_every == 0:
         jj = rng.choice([-20, -7, 0, 0, 9, 20]) if "P" in c else 0
-        out.append(scaled_copy(c, rand_scale(rng), jj))
+        k = rand_scale(rng)
+        _huge_counter[0] += 1
+        if _huge_counter[0] % 4 == 0 and (c["kind"] != "EMB" or c["method"] == "rp"):
+            # HUGE / minute finite magnitudes (2^+-600, 2^+-900 ~ 1e+-180, 1e+-270): squares would overflow, but nothing
+            # in compute_mean / project / MatrixProjectionImplementation (and in RandomProjection, whose matrix does
+            # not depend on the data) squares anything: still exact / still consistent
+            k = rng.choice([-900, -600, 600, 900])
+        out.append(scaled_copy(c, k, jj))
     return out
 
 
@@ -1114,6 +1122,7 @@ def build_cases(ctx, quick):
     # exact stream: plain, mixed magnitudes, boundary sizes; each possibly over a non-identity range, each
     # (quick: every second one on average, thorough: every one) also as a scaled copy
     _variant_counter[0] = 0
+    _huge_counter[0] = 0
     for c in gen_internal(rng, n_int):
         generated += variants(rng, c, 3, 2 if quick else 1)
     for c in gen_mixed(rng, 8 if quick else 120):
@@ -1165,6 +1174,8 @@ def build_cases(ctx, quick):
             bump(hist, "non-identity-range:" + c.get("range", "?"))
         if c.get("scale_log2"):
             bump(hist, "scaled-copy:2^%d" % c["scale_log2"])
+            if abs(c["scale_log2"]) >= 500:
+                bump(hist, "huge-or-minute-magnitude")
         if c.get("boundary") or (c["kind"] != "EMB" and (c.get("N", 0) >= 127 or c["D"] >= 7)):
             bump(hist, "boundary-size")
         if c.get("style") in ("tiny-mean", "tiny-data", "int+tiny"):
